@@ -236,3 +236,221 @@ Proof.
   unfold condorcet_table, ups_cd. apply fold_ups. intros t [o k]. unfold cd_order. simpl.
   rewrite (fold_class_ups _ _ (cd_class_ups (Z.of_N k))). reflexivity.
 Qed.
+
+(* ------------------------------------------------------------------------------------------ *)
+(** * Counting the updates that hit entry (a, c) *)
+
+(* a pair-update generator with weights P (for [w][b]) and Q (for [b][w]) *)
+Definition pu_weights (pu : N -> N -> list upd) (P Q : Z) : Prop :=
+  forall w b a c, hits (pu w b) a c = P * ind a w * ind c b + Q * ind a b * ind c w.
+
+Lemma pu_pw_weights k : pu_weights (pu_pw k) k 0.
+Proof.
+  intros w b a c. unfold pu_pw, hits, hit, ind. simpl.
+  destruct (N.eqb a w), (N.eqb c b), (N.eqb a b), (N.eqb c w); simpl; ring.
+Qed.
+Lemma pu_cp_weights k : pu_weights (pu_cp k) k (- k).
+Proof.
+  intros w b a c. unfold pu_cp, hits, hit, ind. simpl.
+  destruct (N.eqb a w), (N.eqb c b), (N.eqb a b), (N.eqb c w); simpl; ring.
+Qed.
+
+Lemma zsum_inner P Q a c b l :
+  zsum (fun w => P * ind a w * ind c b + Q * ind a b * ind c w) l
+  = P * cnt a l * ind c b + Q * ind a b * cnt c l.
+Proof. unfold cnt. induction l as [|x l IH]; simpl; [ring | rewrite IH; ring]. Qed.
+Lemma zsum_outer P Q A B a c l :
+  zsum (fun b => P * A * ind c b + Q * ind a b * B) l = P * A * cnt c l + Q * cnt a l * B.
+Proof. unfold cnt. induction l as [|x l IH]; simpl; [ring | rewrite IH; ring]. Qed.
+Lemma zsum_inner' P Q a c w l :
+  zsum (fun b => P * ind a w * ind c b + Q * ind a b * ind c w) l
+  = P * ind a w * cnt c l + Q * cnt a l * ind c w.
+Proof. unfold cnt. induction l as [|x l IH]; simpl; [ring | rewrite IH; ring]. Qed.
+Lemma zsum_outer' P Q A B a c l :
+  zsum (fun w => P * ind a w * A + Q * B * ind c w) l = P * cnt a l * A + Q * B * cnt c l.
+Proof. unfold cnt. induction l as [|x l IH]; simpl; [ring | rewrite IH; ring]. Qed.
+
+Lemma hits_uc_bo pu P Q before cls a c : pu_weights pu P Q ->
+  hits (uc_bo pu before cls) a c = P * (cnt a before * cnt c cls) + Q * (cnt c before * cnt a cls).
+Proof.
+  intros H. unfold uc_bo. rewrite hits_flat_map.
+  rewrite (zsum_ext _ (fun b => P * cnt a before * ind c b + Q * ind a b * cnt c before)).
+  - rewrite zsum_outer. ring.
+  - intros b _. rewrite hits_flat_map.
+    rewrite (zsum_ext _ (fun w => P * ind a w * ind c b + Q * ind a b * ind c w)).
+    + apply zsum_inner.
+    + intros w _. apply H.
+Qed.
+Lemma hits_uc_wo pu P Q before cls a c : pu_weights pu P Q ->
+  hits (uc_wo pu before cls) a c = P * (cnt a before * cnt c cls) + Q * (cnt c before * cnt a cls).
+Proof.
+  intros H. unfold uc_wo. rewrite hits_flat_map.
+  rewrite (zsum_ext _ (fun w => P * ind a w * cnt c cls + Q * cnt a cls * ind c w)).
+  - rewrite zsum_outer'. ring.
+  - intros w _. rewrite hits_flat_map.
+    rewrite (zsum_ext _ (fun b => P * ind a w * ind c b + Q * ind a b * ind c w)).
+    + apply zsum_inner'.
+    + intros b _. apply H.
+Qed.
+
+(* number of times the loops over one order visit the pair (winning = a, beaten = c) *)
+Fixpoint cnt_order (before : list N) (o : order) (a c : N) : Z :=
+  match o with
+  | [] => 0
+  | cls :: r => cnt a before * cnt c cls + cnt_order (before ++ cls) r a c
+  end.
+
+Lemma hits_ups_order uc P Q :
+  (forall before cls a c,
+     hits (uc before cls) a c = P * (cnt a before * cnt c cls) + Q * (cnt c before * cnt a cls)) ->
+  forall o before a c,
+    hits (ups_order uc before o) a c = P * cnt_order before o a c + Q * cnt_order before o c a.
+Proof.
+  intros H o. induction o as [|cls o IH]; intros before a c; simpl.
+  - unfold hits. simpl. ring.
+  - rewrite hits_app, H, IH. ring.
+Qed.
+
+(* class_index and membership *)
+Lemma class_index_mem o a :
+  match class_index o a with
+  | Some _ => mem a (concat o) = true
+  | None => mem a (concat o) = false
+  end.
+Proof.
+  induction o as [|cls o IH]; simpl; [reflexivity|].
+  rewrite mem_app. destruct (mem a cls); simpl; [reflexivity|].
+  destruct (class_index o a); simpl; exact IH.
+Qed.
+Lemma class_index_none o a : mem a (concat o) = false -> class_index o a = None.
+Proof. intros H. pose proof (class_index_mem o a) as M. destruct (class_index o a); congruence. Qed.
+Lemma class_index_some o a : mem a (concat o) = true -> exists j, class_index o a = Some j.
+Proof. intros H. pose proof (class_index_mem o a) as M. destruct (class_index o a); [eauto | congruence]. Qed.
+
+Lemma above_cons cls r a c :
+  above (cls :: r) a c
+  = if mem a cls then negb (mem c cls) && mem c (concat r)
+    else if mem c cls then false else above r a c.
+Proof.
+  unfold above. simpl. pose proof (class_index_mem r c) as Mc.
+  destruct (mem a cls), (mem c cls); simpl; try reflexivity.
+  - destruct (class_index r c); simpl; rewrite Mc; reflexivity.
+  - destruct (class_index r a); reflexivity.
+  - destruct (class_index r a), (class_index r c); reflexivity.
+Qed.
+Lemma above_notin_l o a c : mem a (concat o) = false -> above o a c = false.
+Proof. intros H. unfold above. rewrite (class_index_none _ _ H). reflexivity. Qed.
+Lemma above_notin_r o a c : mem c (concat o) = false -> above o a c = false.
+Proof. intros H. unfold above. rewrite (class_index_none _ _ H). destruct (class_index o a); reflexivity. Qed.
+
+Lemma disjoint_mem (l1 l2 : list N) x :
+  (forall y, In y l1 -> ~ In y l2) -> mem x l1 = true -> mem x l2 = false.
+Proof. intros H H1. apply mem_false. apply H. apply mem_In. exact H1. Qed.
+
+Lemma cnt_order_spec o : forall before a c, NoDup (before ++ concat o) ->
+  cnt_order before o a c = b2z (mem a before && mem c (concat o)) + b2z (above o a c).
+Proof.
+  induction o as [|cls o IH]; intros before a c Hnd; simpl.
+  - rewrite andb_false_r. reflexivity.
+  - simpl in Hnd.
+    assert (Hnd2 : NoDup ((before ++ cls) ++ concat o)) by (rewrite <- app_assoc; exact Hnd).
+    rewrite (IH _ a c Hnd2). rewrite above_cons.
+    apply NoDup_app_iff in Hnd. destruct Hnd as [Hb [Hco Hd1]].
+    apply NoDup_app_iff in Hco. destruct Hco as [Hc [Ho Hd2]].
+    rewrite (cnt_NoDup _ _ Hb), (cnt_NoDup _ _ Hc). rewrite !mem_app.
+    assert (D1 : forall x, mem x before = true -> mem x cls = false /\ mem x (concat o) = false).
+    { intros x Hx. pose proof (disjoint_mem _ _ x Hd1 Hx) as E. rewrite mem_app in E.
+      apply orb_false_iff in E. exact E. }
+    assert (D2 : forall x, mem x cls = true -> mem x (concat o) = false).
+    { intros x Hx. exact (disjoint_mem _ _ x Hd2 Hx). }
+    pose proof (above_notin_l o a c) as AL. pose proof (above_notin_r o a c) as AR.
+    pose proof (D1 a) as D1a. pose proof (D2 a) as D2a. pose proof (D2 c) as D2c.
+    destruct (mem a before), (mem a cls), (mem a (concat o)), (mem c cls), (mem c (concat o));
+      simpl in *;
+      try (destruct D1a as [? ?]; [reflexivity|]; discriminate);
+      try (specialize (D2a eq_refl); discriminate);
+      try (specialize (D2c eq_refl); discriminate);
+      try (rewrite AL by reflexivity); try (rewrite AR by reflexivity); try reflexivity.
+Qed.
+
+Lemma cnt_order_above o a c : NoDup (concat o) -> cnt_order [] o a c = b2z (above o a c).
+Proof. intros H. rewrite (cnt_order_spec o [] a c H). reflexivity. Qed.
+
+(* ------------------------------------------------------------------------------------------ *)
+(** * Profile level *)
+
+Definition orders_nodup (p : list (order * N)) : Prop := Forall (fun ok => NoDup (concat (fst ok))) p.
+
+Lemma pw_zsum p a b : pw p a b = zsum (fun ok => if above (fst ok) a b then Z.of_N (snd ok) else 0) p.
+Proof. reflexivity. Qed.
+
+Lemma hits_profile (uck : Z -> list N -> list N -> list upd) (Pk Qk : Z -> Z) p a c :
+  (forall k before cls a c,
+     hits (uck k before cls) a c = Pk k * (cnt a before * cnt c cls) + Qk k * (cnt c before * cnt a cls)) ->
+  orders_nodup p ->
+  hits (flat_map (fun ok => ups_order (uck (Z.of_N (snd ok))) [] (fst ok)) p) a c
+  = zsum (fun ok => Pk (Z.of_N (snd ok)) * b2z (above (fst ok) a c)
+                    + Qk (Z.of_N (snd ok)) * b2z (above (fst ok) c a)) p.
+Proof.
+  intros H Hp. rewrite hits_flat_map. apply zsum_ext. intros [o k] Hin. simpl.
+  rewrite (hits_ups_order _ _ _ (H (Z.of_N k))).
+  unfold orders_nodup in Hp. rewrite Forall_forall in Hp. specialize (Hp _ Hin). simpl in Hp.
+  rewrite !cnt_order_above by exact Hp. reflexivity.
+Qed.
+
+Lemma hits_ups_pw p a c : orders_nodup p -> hits (ups_pw p) a c = pw p a c.
+Proof.
+  intros Hp. unfold ups_pw.
+  rewrite (hits_profile (fun k => uc_bo (pu_pw k)) (fun k => k) (fun _ => 0)).
+  - rewrite pw_zsum. apply zsum_ext. intros [o k] _. simpl. destruct (above o a c); simpl; ring.
+  - intros k before cls a' c'. apply hits_uc_bo. apply pu_pw_weights.
+  - exact Hp.
+Qed.
+
+Lemma zsum_margin p a c :
+  zsum (fun ok : order * N => Z.of_N (snd ok) * b2z (above (fst ok) a c)
+                   + - Z.of_N (snd ok) * b2z (above (fst ok) c a)) p = margin p a c.
+Proof.
+  unfold margin. rewrite !pw_zsum. induction p as [|[o k] p IH]; simpl; [reflexivity|].
+  rewrite IH. destruct (above o a c), (above o c a); simpl; ring.
+Qed.
+
+Lemma hits_ups_cp p a c : orders_nodup p -> hits (ups_cp p) a c = margin p a c.
+Proof.
+  intros Hp. unfold ups_cp.
+  rewrite (hits_profile (fun k => uc_bo (pu_cp k)) (fun k => k) (fun k => - k)).
+  - apply zsum_margin.
+  - intros k before cls a' c'. apply hits_uc_bo. apply pu_cp_weights.
+  - exact Hp.
+Qed.
+Lemma hits_ups_cd p a c : orders_nodup p -> hits (ups_cd p) a c = margin p a c.
+Proof.
+  intros Hp. unfold ups_cd.
+  rewrite (hits_profile (fun k => uc_wo (pu_cp k)) (fun k => k) (fun k => - k)).
+  - apply zsum_margin.
+  - intros k before cls a' c'. apply hits_uc_wo. apply pu_cp_weights.
+  - exact Hp.
+Qed.
+
+(** the three tables in closed form *)
+Theorem pairwise_table_closed i : NoDup (alts i) -> orders_nodup (mult i) ->
+  pairwise_table i = rebuild (pw (mult i)) (shape_of (alts i)).
+Proof.
+  intros Ha Hp. rewrite pairwise_table_ups, init_table_rebuild.
+  rewrite apply_rebuild by (apply wf_shape_of; exact Ha).
+  apply rebuild_ext. intros a c. rewrite hits_ups_pw by exact Hp. ring.
+Qed.
+Theorem copeland_table_closed i : NoDup (alts i) -> orders_nodup (mult i) ->
+  copeland_table i = rebuild (margin (mult i)) (shape_of (alts i)).
+Proof.
+  intros Ha Hp. rewrite copeland_table_ups, init_table_rebuild.
+  rewrite apply_rebuild by (apply wf_shape_of; exact Ha).
+  apply rebuild_ext. intros a c. rewrite hits_ups_cp by exact Hp. ring.
+Qed.
+Theorem condorcet_table_closed i : NoDup (alts i) -> orders_nodup (mult i) ->
+  condorcet_table i = rebuild (margin (mult i)) (shape_of (alts i)).
+Proof.
+  intros Ha Hp. rewrite condorcet_table_ups, init_table_rebuild.
+  rewrite apply_rebuild by (apply wf_shape_of; exact Ha).
+  apply rebuild_ext. intros a c. rewrite hits_ups_cd by exact Hp. ring.
+Qed.
